@@ -389,7 +389,7 @@ class Rule(NamedBox):
         return ri
 
     def _pretty(self, lean=False):
-        str_template = "{is_name}{no_memo}{name}{base}{params}:{exp}"
+        str_template = "{decorators}{name}{params}{base}:{exp}"
 
         if lean:
             params = ''
@@ -421,13 +421,20 @@ class Rule(NamedBox):
         else:
             exp = ' ' + exp
 
+        decorators = ''
+        if self.is_name:
+            decorators += '@name\n'
+        if self.no_memo or 'nomemo' in self.decorators:
+            decorators += '@nomemo\n'
+        if self.no_stak or 'nostak' in self.decorators:
+            decorators += '@nostak\n'
+
         return trim(str_template).format(
             name=self.name,
             base=base,
             params=params,
             exp=exp,
-            no_memo='@nomemo\n' if self.no_memo else '',
-            is_name='@name\n' if self.is_name else '',
+            decorators=decorators,
         )
 
     def optimized(self) -> Rule:
